@@ -232,3 +232,42 @@ func VH02e_second_peer() {
 	verif.Reach("second-peer-checked")
 	sock.Close()
 }
+
+// VH02f_dialer_takeover: a PAIR socket with an established peer also dials a
+// second address; that connection is refused while the first peer is there and
+// must be re-established (and carry the traffic) once the first peer has gone.
+func VH02f_dialer_takeover() {
+	proto := pairs[verif.Choice("proto", len(pairs))]
+	lab := "C02/" + proto + "/takeover"
+	sock := vp.New(proto)
+	verif.Assert(sock.SetOption(mangos.OptionDialAsynch, true) == nil, lab+"/asynch")
+	side := vt.Listen(sock, "a")
+	p1 := side.Peer("p1")
+	verif.Assert(!p1.Closed, lab+"/first-peer")
+	verif.Assert(sock.Dial("vt://peerB") == nil, lab+"/dial")
+	verif.Quiesce()
+	d := vt.T.Dialers[0]
+	verif.Assert(len(d.Pipes) >= 1 && d.Pipes[0].Closed, lab+"/second-connection-not-refused")
+	verif.Assert(!p1.Closed, lab+"/first-peer-disturbed")
+	// the first peer leaves; the dialer's next attempt must be accepted
+	p1.Drop()
+	verif.Quiesce()
+	for i := 0; i < 4 && (len(d.Pipes) == 0 || d.Pipes[len(d.Pipes)-1].Closed); i++ {
+		if !verif.FireTimer() {
+			break
+		}
+	}
+	last := d.Pipes[len(d.Pipes)-1]
+	verif.Assert(!last.Closed, lab+"/dialer-did-not-take-over-after-first-peer-left")
+	if last.Closed {
+		return
+	}
+	b := []byte{'t', verif.Byte("out")}
+	var serr error
+	g := verif.Go("send", func() { serr = sendOne(sock, proto, b) })
+	verif.Quiesce()
+	verif.Assert(g.Done() && serr == nil, lab+"/send-after-takeover")
+	verif.Assert(len(last.Sent) == 1, lab+"/traffic-not-on-the-new-connection")
+	verif.Reach("took-over")
+	sock.Close()
+}
